@@ -54,14 +54,14 @@ Section Steps.
 
   (* drain_queue parks the queue after its own result arrived: WaitingForWake, then wake_with(WakeQueue) *)
   Lemma ws_dqwfw s a f d rest : Inv_own s -> Inv_wake s -> stacks s !! a = Some (FDQwfw f d :: rest) ->
-    Inv_wake (setstack (s <| qs := WaitingForWake |>) a (FWakeWith d WQueue :: FRet RReady :: rest)).
+    Inv_wake (setstack (s <| qs := WaitingForWake |>) a (FWakeWith d WQueue :: rest)).
   Proof.
     intros HO HI Hst. set (s' := setstack _ _ _).
-    assert (Hs : stacks s' = <[a := FWakeWith d WQueue :: FRet RReady :: rest]> (stacks s)) by (subst s'; solve_stacks).
+    assert (Hs : stacks s' = <[a := FWakeWith d WQueue :: rest]> (stacks s)) by (subst s'; solve_stacks).
     pose proof (top_ok s a _ _ HI Hst) as Hok. cbn in Hok.
     split.
     - eapply (frames_runner_step' s _ a _ rest _ HO Hst eq_refl Hs).
-      intros fr [->|[->|Hin]%elem_of_cons]%elem_of_cons; [by right|by right|by left].
+      intros fr [->|Hin]%elem_of_cons; [by right|by left].
     - unfold queue_ok. change (qs s') with WaitingForWake. cbv beta iota. change (hsusp s') with (hsusp s).
       destruct (hsusp s) as [e|]; [|done]. apply cover_iff. right; right. exists a, d, WQueue.
       split; [eapply fsat_new; [exact Hst|exact Hs|left]|]. split; [done|].
@@ -71,14 +71,14 @@ Section Steps.
   (* drain_queue parks the queue for the next poll: WaitingForPoll f, then wake_with(DoubleWaker(WakeQueue, task waker)) *)
   Lemma ws_dqwfp s a f d rest : Inv_own s -> Inv_wake s -> stacks s !! a = Some (FDQwfp f d :: rest) ->
     Inv_wake (setstack (s <| qs := WaitingForPoll f |> <| dbl := s.(dbl) ++ [Some (WQueue, WTask a)] |>) a
-                (FWakeWith d (WDouble (length s.(dbl))) :: FRet RPending :: rest)).
+                (FWakeWith d (WDouble (length s.(dbl))) :: rest)).
   Proof.
     intros HO HI Hst. set (k := length (dbl s)). set (s' := setstack _ _ _).
-    assert (Hs : stacks s' = <[a := FWakeWith d (WDouble k) :: FRet RPending :: rest]> (stacks s)) by (subst s'; solve_stacks).
+    assert (Hs : stacks s' = <[a := FWakeWith d (WDouble k) :: rest]> (stacks s)) by (subst s'; solve_stacks).
     pose proof (top_ok s a _ _ HI Hst) as Hok. cbn in Hok.
     split.
     - eapply (frames_runner_step' s _ a _ rest _ HO Hst eq_refl Hs).
-      intros fr [->|[->|Hin]%elem_of_cons]%elem_of_cons; [by right|by right|by left].
+      intros fr [->|Hin]%elem_of_cons; [by right|by left].
     - unfold queue_ok. change (qs s') with (WaitingForPoll f). cbv beta iota. change (hsusp s') with (hsusp s).
       destruct (hsusp s) as [e|]; [|done].
       assert (cover s' e = true) as ->; [|done].
